@@ -13,6 +13,9 @@ Proof. apply internal_tkind_dec_lb. reflexivity. Qed.
 Lemma tkb_neq a b : a <> b -> tk_eqb a b = false.
 Proof. intro H. destruct (tk_eqb a b) eqn:E; [|reflexivity]. apply tkb_true in E. contradiction. Qed.
 
+Lemma swt_neq k k' : swt k = true -> swt k' = false -> tk_eqb k k' = false.
+Proof. intros H1 H2. apply tkb_neq. intro E. subst. congruence. Qed.
+
 Lemma comment_not_k k c : is_comment k = false -> is_comment c = true -> tk_eqb c k = false.
 Proof. intros Hk Hc. apply tkb_neq. intro E. subst. congruence. Qed.
 
@@ -40,7 +43,7 @@ Lemma jsim_ws_inv m w r1 l2 :
 Proof.
   intros Kw H. inversion H; subst.
   - exists b, r2. split; [reflexivity|]. split; [assumption|]. rewrite Kw in *. assumption.
-  - congruence.
+  - match goal with H : swt (kind w) = true |- _ => rewrite Kw in H; discriminate H end.
 Qed.
 
 (* ---------------------------------------------------------------- 2. ksim, textrel, texts *)
@@ -131,7 +134,7 @@ Lemma jsim_in_ksim l1 l2 :
 Proof. intros H Hf. exact (jsim_in_ksim_gen _ _ _ H eq_refl Hf). Qed.
 
 Lemma jsim_noword_ksim m l1 l2 :
-  jsim m l1 l2 -> forallb (fun t => negb (tk_eqb (kind t) KWord)) l1 = true -> ksim l1 l2.
+  jsim m l1 l2 -> forallb (fun t => negb (swt (kind t))) l1 = true -> ksim l1 l2.
 Proof.
   induction 1 as [m | m a b r1 r2 Hab _ IH | a b cm w r1 r2 Hab Ka Hc Hn Kw _ IH]; intro Hf.
   - constructor.
@@ -188,7 +191,7 @@ Proof.
     + cbn [firstn skipn mode_after]. split; [constructor | apply j_ins; assumption].
     + rewrite Hc, F2. cbn [position] in IH. rewrite Kw, F3 in IH. rewrite Kw, F3.
       destruct (position f r1) as [n1|], (position f r2) as [n2|]; cbn [option_map] in *; try exact IH.
-      destruct IH as [IH1 IH2]. cbn [firstn skipn mode_after] in *. rewrite Ka. cbn [next_mode].
+      destruct IH as [IH1 IH2]. cbn [firstn skipn mode_after] in *. rewrite (swt_next_mode _ _ Ka).
       rewrite Kw in IH2. cbn [next_mode] in IH2. rewrite Kw. cbn [next_mode].
       split; [apply j_ins; assumption | exact IH2].
 Qed.
@@ -230,7 +233,7 @@ Qed.
 
 (* ---------------------------------------------------------------- 6. the split at a test that stops at words *)
 Lemma jsim_split_noword (g : tkind -> bool) m l1 l2 :
-  g KWord = false -> jsim m l1 l2 ->
+  (forall k, swt k = true -> g k = false) -> jsim m l1 l2 ->
   match position (fun k => negb (g k)) l1, position (fun k => negb (g k)) l2 with
   | None, None => ksim l1 l2
   | Some n1, Some n2 => n1 = n2 /\ ksim (firstn n1 l1) (firstn n2 l2) /\ jany (skipn n1 l1) (skipn n2 l2)
@@ -244,7 +247,7 @@ Proof.
     + destruct (position _ r1) as [n1|], (position _ r2) as [n2|]; cbn [option_map]; try exact IH.
       * destruct IH as (-> & IH1 & IH2). cbn [firstn skipn]. split; [reflexivity|]. split; [constructor; assumption | exact IH2].
       * constructor; assumption.
-  - cbn [position]. rewrite <- (krel_kind _ _ Hab), Ka, G. cbn [negb firstn skipn].
+  - cbn [position]. rewrite <- (krel_kind _ _ Hab), (G _ Ka). cbn [negb firstn skipn].
     split; [reflexivity|]. split; [constructor|]. exists MOut. apply j_ins; assumption.
 Qed.
 
@@ -613,7 +616,7 @@ Proof.
 Qed.
 
 (* ---------------------------------------------------------------- consume, bump *)
-Lemma HJ_consume_m k m : k <> KWord ->
+Lemma HJ_consume_m k m : swt k = false ->
   HJ (St (jsim m)) (consume k) (consume k)
      (fun o1 s1 o2 s2 => orel krel o1 o2 /\
         match o1 with None => St (jsim m) s1 s2 | Some _ => St (jsim (next_mode m k)) s1 s2 end).
@@ -624,10 +627,10 @@ Proof.
   - rewrite <- (krel_kind _ _ Hab). destruct (tk_eqb (kind a) k) eqn:E.
     + apply tkb_true in E. subst k. split; [exact Hab|]. apply (St_step1 _ _ _ _ _ _ _ _ S). exact Hr.
     + split; [exact I | exact S].
-  - rewrite <- (krel_kind _ _ Hab), Ka. rewrite (tkb_neq KWord k) by congruence. split; [exact I | exact S].
+  - rewrite <- (krel_kind _ _ Hab), (swt_neq _ _ Ka Kk). split; [exact I | exact S].
 Qed.
 
-Lemma HL_consume k : k <> KWord -> HL jany (orel krel) (consume k) (consume k) jany.
+Lemma HL_consume k : swt k = false -> HL jany (orel krel) (consume k) (consume k) jany.
 Proof.
   intros Kk s1 s2 S. pose proof S as ([m Hr] & _).
   pose proof (HJ_consume_m k m Kk s1 s2 (St_rest _ _ _ _ S Hr)) as X.
@@ -635,7 +638,7 @@ Proof.
   destruct X as [Ho X]. split; [exact Ho|]. destruct o1; exact (St_mono _ _ _ _ (jsim_jany _) X).
 Qed.
 
-Lemma HL_consume_any k : tk_eqb KWs k = false -> is_comment k = false -> k <> KWord ->
+Lemma HL_consume_any k : tk_eqb KWs k = false -> is_comment k = false -> swt k = false ->
   HL anyR (orel krel) (consume k) (consume k) anyR.
 Proof.
   intros Kw Kc Kk s1 s2 S. pose proof S as ([Hr|Hr] & _).
@@ -646,14 +649,14 @@ Proof.
     rewrite Hw, Kw, Hc, (comment_not_k _ KBlockComment Kc eq_refl). split; [exact I | exact S].
 Qed.
 
-Lemma HL_bump k : k <> KWord -> HL jany krel (bump k) (bump k) jany.
+Lemma HL_bump k : swt k = false -> HL jany krel (bump k) (bump k) jany.
 Proof.
   intros Kk s1 s2 S. rewrite !bump_step. pose proof S as ([m Hr] & _).
   destruct Hr as [m | m a b r1 r2 Hab Hr | a b cm w r1 r2 Hab Ka Hc Hn Kw Hr].
   - exact I.
   - rewrite <- (krel_kind _ _ Hab). destruct (tk_eqb (kind a) k); [|exact I].
     split; [exact Hab|]. apply (St_step1 _ _ _ _ _ _ _ _ S). eexists; exact Hr.
-  - rewrite <- (krel_kind _ _ Hab), Ka. rewrite (tkb_neq KWord k) by congruence. exact I.
+  - rewrite <- (krel_kind _ _ Hab), (swt_neq _ _ Ka Kk). exact I.
 Qed.
 
 (* bump_any alone: in step again unless a word was taken, then possibly before an inserted comment *)
@@ -667,23 +670,23 @@ Proof.
 Qed.
 
 Lemma HJ_bump_any_kind_any :
-  HJ (St jany) bump_any bump_any (fun a s1 b s2 => krel a b /\ St anyR s1 s2 /\ (kind a <> KWord -> St jany s1 s2)).
+  HJ (St jany) bump_any bump_any (fun a s1 b s2 => krel a b /\ St anyR s1 s2 /\ (swt (kind a) = false -> St jany s1 s2)).
 Proof.
   intros s1 s2 S. rewrite !bump_any_step. pose proof S as ([m Hr] & _).
   destruct Hr as [m | m a b r1 r2 Hab Hr | a b cm w r1 r2 Hab Ka Hc Hn Kw Hr].
   - exact I.
   - split; [exact Hab|]. split; [|intros _]; apply (St_step1 _ _ _ _ _ _ _ _ S); [left|]; eexists; exact Hr.
-  - split; [exact Hab|]. split; [|intro X; contradiction].
+  - split; [exact Hab|]. split; [|intro X; congruence].
     apply (St_step1 _ _ _ _ _ _ _ _ S). right. exists w, r1, cm, r2. repeat split; assumption.
 Qed.
 Lemma HJ_bump_any_kind :
-  HJ (St jany) bump_any bump_any (fun a s1 b s2 => krel a b /\ (kind a <> KWord -> St jany s1 s2)).
+  HJ (St jany) bump_any bump_any (fun a s1 b s2 => krel a b /\ (swt (kind a) = false -> St jany s1 s2)).
 Proof.
   eapply HJ_conseq; [intros s1 s2 X; exact X | apply HJ_bump_any_kind_any |].
   intros a s1 b s2 (H1 & _ & H2). split; assumption.
 Qed.
 
-Lemma HL_bump_any_k k : k <> KWord ->
+Lemma HL_bump_any_k k : swt k = false ->
   HL (jhead k) (fun a b => krel a b /\ kind a = k) bump_any bump_any jany.
 Proof.
   intros Kk s1 s2 S. rewrite !bump_any_step. pose proof S as (([m Hr] & Hk) & _).
@@ -725,7 +728,7 @@ Proof.
   - rewrite !firstn_all. split; [eexists; exact Hr|]. apply (St_advance _ _ _ _ _ _ S). rewrite !skipn_all. exact jany_nil.
 Qed.
 
-Lemma HL_consume_while_noword g : g KWord = false ->
+Lemma HL_consume_while_noword g : (forall k, swt k = true -> g k = false) ->
   HL jany ksim (consume_while g) (consume_while g) jany.
 Proof.
   intros G s1 s2 S. unfold consume_while. pose proof S as ([m Hr] & _).
@@ -747,7 +750,7 @@ Proof.
 Qed.
 
 Lemma HL_ws_comments_k : HL jany ksim ws_comments ws_comments jany.
-Proof. apply HL_consume_while_noword. reflexivity. Qed.
+Proof. apply HL_consume_while_noword. intros k H. destruct k; try discriminate H; reflexivity. Qed.
 Lemma HL_ws_comments : HL jany jany ws_comments ws_comments jany.
 Proof. eapply HL_conseq_R; [apply HL_ws_comments_k | exact ksim_jany]. Qed.
 
